@@ -70,8 +70,10 @@ func ExtensionForKey(key cbc.Key) *cbc.Definition {
 func (em Extensions) Validate() error {
 	err := make(validation.Errors)
 	// Validate key format
-	for k := range em {
+	for k, ev := range em {
 		if e := k.Validate(); e != nil {
+			err[k.String()] = e
+		} else if e := ev.Validate(); e != nil {
 			err[k.String()] = e
 		}
 	}
